@@ -195,3 +195,76 @@ func init() {
 		}
 	}
 }
+
+func init() {
+	extraDumps["spec"] = func(t *Tree, name string) {
+		astp := t.SSA[pAst]
+		dt := func(n string) sval { return constv(astp.Const(n).Value.Value) }
+		rt := t.SSA[pRT]
+		switch name {
+		case "condOp":
+			f := rt.Func("condOp")
+			for _, op := range []string{"EQEQ", "NEQ", "LT", "AND", "OR"} {
+				for _, l := range []string{"Nil", "Bool", "Int", "Float", "String", "List", "Map"} {
+					for _, r := range []string{"Nil", "Bool", "Int", "Float", "String", "List", "Map"} {
+						cfg := &specCfg{Call: stdErrCall}
+						outs, ab := cfg.run(f, []sval{symv("lhs"), symv("rhs"), dt(l), dt(r), dt(op)})
+						fmt.Printf("%-5s %-7s %-7s -> %s %s\n", op, l, r, outcomeSet(outs, func(o specOutcome) string { return fmt.Sprint(o.Vals) }), ab)
+					}
+				}
+			}
+		case "condTrue":
+			f := rt.Func("condTrue")
+			for _, l := range []string{"Invalid", "Void", "Nil", "Bool", "Int", "Float", "String", "List", "Map"} {
+				cfg := &specCfg{Call: stdErrCall}
+				outs, ab := cfg.run(f, []sval{symv("val"), dt(l)})
+				fmt.Printf("condTrue %-7s -> %s %s\n", l, outcomeSet(outs, func(o specOutcome) string { return fmt.Sprint(o.Vals, o.Cond) }), ab)
+			}
+		}
+	}
+}
+
+func init() {
+	extraDumps["spec2"] = func(t *Tree, name string) {
+		astp := t.SSA[pAst]
+		dt := func(n string) sval { return constv(astp.Const(n).Value.Value) }
+		rt := t.SSA[pRT]
+		f := rt.Func(name)
+		runStmt := rt.Func("RunStmt")
+		for _, op := range []string{"ADD", "DIV", "MOD"} {
+			for _, l := range []string{"Nil", "Bool", "Int", "Float", "String", "List"} {
+				for _, r := range []string{"Bool", "Int", "Float", "String"} {
+					cfg := &specCfg{Paths: map[string]sval{"expr.Op": dt(op)}}
+					cfg.Call = func(fn *ssa.Function, call *ssa.Call, nth int, args []sval) (sval, bool) {
+						if call.Call.StaticCallee() == runStmt && fn == f {
+							if nth == 1 {
+								return sval{tup: []sval{symv("L"), dt(l), {nil: true}}}, true
+							}
+							return sval{tup: []sval{symv("R"), dt(r), {nil: true}}}, true
+						}
+						return stdErrCall(fn, call, nth, args)
+					}
+					outs, ab := cfg.run(f, []sval{symv("ctx"), symv("expr")})
+					fmt.Printf("%-4s %-7s %-7s -> %s %s\n", op, l, r, outcomeSet(outs, func(o specOutcome) string { return fmt.Sprint(o.Vals, o.Cond) }), ab)
+				}
+			}
+		}
+	}
+}
+
+func init() {
+	extraDumps["optables"] = func(t *Tree, name string) {
+		pkg := pRT
+		if strings.HasPrefix(name, "v2") {
+			pkg = pRT2
+			name = strings.TrimPrefix(name, "v2")
+		}
+		ot := extractOpTables(t, pkg)
+		for _, k := range sortedKeys(ot.Cells) {
+			if name == "" || strings.HasPrefix(k, name) {
+				fmt.Printf("%-34s %s\n", k, ot.Cells[k])
+			}
+		}
+		fmt.Println("aborts:", ot.Abort)
+	}
+}
